@@ -14,6 +14,7 @@ import XotModel.Lemmas.Output
 import XotModel.Lemmas.Pretty
 import XotModel.Lemmas.PrettyWhere
 import XotModel.Lemmas.Doctype
+import XotModel.Lemmas.PrettyBetween
 
 namespace XotModel.Props
 open XotModel XotModel.Gen
@@ -343,5 +344,88 @@ example :
     = some [([0], 0, false), ([0], 0, true), ([0, 0], 1, false), ([0, 0], 0, false),
             ([0, 0, 0], 0, false), ([0, 0, 1], 0, false), ([0, 0, 1], 0, false), ([0, 0, 1], 0, false),
             ([0, 0], 0, true), ([0], 0, true)] := by decide
+
+/-! ### Whitespace lands only between markup tokens (never inside a tag, never next to text) -/
+
+/-- Per token, every tree: indentation is written only in front of a token that opens markup
+    (`<name`, end tag, comment, PI) and a newline only behind one that closes markup (`>` / `/>`,
+    end tag, comment, PI).  In particular a text / CDATA token has indentation 0 and no newline,
+    and so have the attribute and `xmlns` tokens inside a start tag. -/
+theorem C14_pretty_token_kinds (esc : Escapers) (env : Env) (pr : TokenParams) (sup : List Nat)
+    (t : Tree) (start : Path) (ks : List (Path × Output × PrettyOutputToken))
+    (h : prettyTokensWith esc env pr sup t start = .ok ks)
+    (k : Path × Output × PrettyOutputToken) (hk : k ∈ ks) :
+    (k.2.2.indentation > 0 → k.2.1.opensMarkup = true) ∧
+    (k.2.2.newline = true → k.2.1.closesMarkup = true) :=
+  pretty_token_kinds sup t esc env pr start ks h k hk
+
+theorem C14_pretty_text_token (esc : Escapers) (env : Env) (pr : TokenParams) (sup : List Nat)
+    (t : Tree) (start : Path) (ks : List (Path × Output × PrettyOutputToken))
+    (h : prettyTokensWith esc env pr sup t start = .ok ks)
+    (p : Path) (c : Str) (tok : PrettyOutputToken) (hk : (p, Output.text c, tok) ∈ ks) :
+    tok.indentation = 0 ∧ tok.newline = false := by
+  obtain ⟨h1, h2⟩ := pretty_token_kinds sup t esc env pr start ks h _ hk
+  constructor
+  · cases hi : tok.indentation with
+    | zero => rfl
+    | succ m => exact absurd (h1 (by simp [hi])) (by simp [Output.opensMarkup])
+  · cases hn : tok.newline with
+    | false => rfl
+    | true => exact absurd (h2 hn) (by simp [Output.closesMarkup])
+
+/-- Between tokens, on the trees the indentation clause ranges over (`TextOk`: well-formed
+    documents and element-rooted subtrees — leaf kinds are leaves, no text directly under a
+    document node): if the pretty writer puts whitespace between two consecutive tokens `k1 k2`
+    (a newline behind `k1` or indentation in front of `k2`) then `k1` closes markup and its text
+    ends with `>`, `k2` opens markup and its text begins with `<` (the empty end-tag token of an
+    element written `<e/>` is the only markup token without characters), and the stack between
+    them — the entries of the open elements the whitespace lands in — is neither mixed /
+    suppressed nor in `xml:space="preserve"` scope.  So a parser reads every inserted run as (part
+    of) a whitespace-only text node between two pieces of markup, or outside the root. -/
+theorem C14_pretty_only_whitespace (esc : Escapers) (env : Env) (pr : TokenParams) (sup : List Nat)
+    (t : Tree) (start : Path) (n : Tree) (inScope : List (Nat × Nat)) (hat : t.at? start = some n)
+    (hs : namespacesInScope t start = some inScope) (hok : TextOk n)
+    (ks pre post : List (Path × Output × PrettyOutputToken)) (k1 k2 : Path × Output × PrettyOutputToken)
+    (h : prettyTokensWith esc env pr sup t start = .ok ks) (hks : ks = pre ++ k1 :: k2 :: post)
+    (hw : k1.2.2.newline = true ∨ k2.2.2.indentation > 0) :
+    (k1.2.1.closesMarkup = true ∧
+      (k1.2.2.text.getLast? = some '>' ∨ ((∃ name, k1.2.1 = .endTag name) ∧ k1.2.2.text = []))) ∧
+    (k2.2.1.opensMarkup = true ∧ k2.2.2.space = false ∧
+      (k2.2.2.text.head? = some '<' ∨ ((∃ name, k2.2.1 = .endTag name) ∧ k2.2.2.text = []))) ∧
+    ∃ rel, k2.1 = start ++ rel ∧
+      PStack.inMixed (pentriesFor sup k2.2.1 n rel) = false ∧
+      PStack.inSpacePreserve (pentriesFor sup k2.2.1 n rel) = false := by
+  obtain ⟨c1, c2, hrel⟩ := pretty_between sup t esc env pr start n inScope hat hs hok ks pre post k1 k2 h hks hw
+  have s1 := (pretty_token_shape sup t esc env pr start ks h k1 (by simp [hks])).2 c1
+  have s2 := (pretty_token_shape sup t esc env pr start ks h k2 (by simp [hks])).1 c2
+  exact ⟨⟨c1, s1⟩, ⟨c2, s2.1, s2.2⟩, hrel⟩
+
+/-- Nothing is written in front of the first token. -/
+theorem C14_pretty_first_token (esc : Escapers) (env : Env) (pr : TokenParams) (sup : List Nat)
+    (t : Tree) (start : Path) (k : Path × Output × PrettyOutputToken)
+    (ks : List (Path × Output × PrettyOutputToken))
+    (h : prettyTokensWith esc env pr sup t start = .ok (k :: ks)) : k.2.2.indentation = 0 :=
+  pretty_first_token sup t esc env pr start k ks h
+
+/-- Non-vacuity of `C14_pretty_only_whitespace`: `<d><a/><!--c--></d>` (d=5, a=2) satisfies
+    `TextOk` and its tokens `<d` `>`⏎ ␣␣`<a` `/>` ``⏎ ␣␣`<!--c-->`⏎ `</d>`⏎ receive whitespace (the empty
+    environment spells every name as the empty string). -/
+example : TextOk (.node .document [.node (.element 5) [.node (.element 2) [], .node (.comment ['c']) []]]) := by
+  simp [TextOk, Tree.Forall, Tree.Forall.forallList, TextOkAt, Value.isLeafKind, Value.isText, Tree.value]
+
+example :
+    (prettyTokens {} {} []
+      (.node .document [.node (.element 5) [.node (.element 2) [], .node (.comment ['c']) []]]) []
+      ).okValue?.map (fun l => l.map (fun k => (k.2.2.indentation, String.ofList k.2.2.text, k.2.2.newline)))
+    = some [(0, "<", false), (0, ">", true), (1, "<", false), (0, "/>", false), (0, "", true),
+            (1, "<!--c-->", true), (0, "</>", true)] := by decide
+
+/-- Why `TextOk` excludes text directly under a document node (a fragment; outside the
+    indentation clause of the property): `Pretty` keeps no stack entry for the document node, so in
+    the fragment `<a/>x` the newline behind `<a/>` lands in front of the text token. -/
+theorem C14_pretty_fragment_text_gets_newline :
+    (prettyTokens {} {} [] (.node .document [.node (.element 2) [], .node (.text ['x']) []]) []
+      ).okValue?.map (fun l => l.map (fun k => (k.2.2.indentation, String.ofList k.2.2.text, k.2.2.newline)))
+    = some [(0, "<", false), (0, "/>", false), (0, "", true), (0, "x", false)] := by decide
 
 end XotModel.Props
